@@ -10,7 +10,7 @@ import (
 // HarnessC10: the same sub-schema used inline and through $ref to a definition: same
 // verdict on the same symbolic document; a definition used by two referrers is declared once.
 func HarnessC10() {
-	pt, ps := zzGen(zzvrt.Param("KINDS", zzAllKinds|zzKMap|zzKEnumStrNull), zzvrt.Param("DEPTH", 1), true)
+	pt, ps := zzGen(zzvrt.Param("KINDS", zzEveryKind), zzvrt.Param("DEPTH", 1), true)
 	n := zzvrt.Param("N", 2)
 	required := zzvrt.Bool()
 	srcI, rootI, errI := zzGenerate(zzCloneType(pt), required, false, Config{}, zzCloneDefs(zzAllDefs(ps)))
@@ -119,6 +119,10 @@ func HarnessC10Shared() {
 // declaration and different ones get suffixed names); every property that references a
 // definition accepts exactly the documents of ITS definition's schema.
 func HarnessC10Names() {
+	if zzvrt.Param("NESTED", 1) == 1 && zzvrt.Choice(2) == 1 {
+		zzNestedNameCollision()
+		return
+	}
 	names := []string{"line-ref", "lineRef", "line_ref", "LineRef"}[:zzvrt.Param("NAMES", 3)]
 	pool := []string{"integer", "string", "boolean", "enum:a,b", "enum:a,c"}[:zzvrt.Param("POOLKINDS", 5)]
 	defs := schemas.Definitions{}
@@ -185,4 +189,70 @@ func HarnessC10Names() {
 	if anyEnum {
 		zzvrt.Check("C08.names.each-reference-has-its-own-enum", zzvrt.Implies(f.others("enum"), zzvrt.Iff(accepted, f.enum)))
 	}
+}
+
+// zzNestedNameCollision: a definition whose name is already the Go name that an INLINE nested
+// type of another definition gets (definition Order with the inline object property item ->
+// OrderItem, and a definition named OrderItem or order-item): each reference still means its
+// own definition, whatever their members require.
+func zzNestedNameCollision() {
+	second := []string{"OrderItem", "order-item", "orderItem"}[zzvrt.Choice(3)]
+	ka, kb := "string", "string"
+	if zzvrt.Bool() {
+		ka = "integer"
+	}
+	reqA, reqB := false, zzvrt.Bool()
+	member := func(k string, req bool) (*schemas.Type, *zzSpec) {
+		t := &schemas.Type{Type: schemas.TypeList{"object"}, Properties: map[string]*schemas.Type{"v": {Type: schemas.TypeList{k}}}}
+		s := &zzSpec{kind: "object", props: map[string]*zzSpec{"v": {kind: k}}, order: []string{"v"}, required: map[string]bool{"v": req}}
+		if req {
+			t.Required = []string{"v"}
+		}
+		return t, s
+	}
+	inlineT, inlineS := member(ka, reqA)
+	defT, defS := member(kb, reqB)
+	order := &schemas.Type{Type: schemas.TypeList{"object"}, Properties: map[string]*schemas.Type{"item": inlineT}}
+	orderS := &zzSpec{kind: "object", props: map[string]*zzSpec{"item": inlineS}, order: []string{"item"}, required: map[string]bool{}}
+	defs := schemas.Definitions{"Order": order, second: defT}
+	root := &schemas.Type{Type: schemas.TypeList{"object"}, Properties: map[string]*schemas.Type{
+		"o": {Ref: "#/$defs/Order"}, "i": {Ref: "#/$defs/" + second},
+		"list": {Type: schemas.TypeList{"array"}, Items: &schemas.Type{Ref: "#/$defs/" + second}}}}
+	sch := &schemas.Schema{ObjectAsType: (*schemas.ObjectAsType)(root), ID: "https://example.com/root", Definitions: defs}
+	g, err := New(Config{DefaultPackageName: "example.com/gen", DefaultOutputName: "root.go", Warner: func(string) {},
+		Tags: []string{"json", "yaml", "mapstructure"}})
+	if err != nil {
+		zzvrt.Unreachable("New failed")
+	}
+	zzvrt.Witness("schema", sch)
+	zzvrt.Note("nested-vs-definition: " + second)
+	if err := g.addFile("root.json", sch); err != nil {
+		zzvrt.Note(err.Error())
+		zzvrt.Check("C10.names.generates", false)
+		return
+	}
+	src := string(g.Sources()["root.go"])
+	zzvrt.Emit("root.go", src)
+	h := zzvrt.Stage2(src)
+	if !zzvrt.S2OK(h) {
+		zzvrt.Note(zzvrt.S2Errors(h))
+		zzvrt.Check("C10.names.compiles", false)
+		zzvrt.Check("C14.names.distinct-schema-types-get-distinct-type-names", false)
+		return
+	}
+	zzvrt.Check("C14.names.distinct-schema-types-get-distinct-type-names", true)
+	d := zzvrt.NewDoc()
+	zzTypeCorrectObject(d)
+	f := zzMember(d, "o", orderS, false, 1).and(zzMember(d, "i", defS, false, 1))
+	f = f.and(zzMember(d, "list", &zzSpec{kind: "array", items: defS}, false, 1))
+	zzvrt.Assume(zzvrt.Not(f.dontCare))
+	zzvrt.Assume(zzvrt.And(zzvrt.Not(f.itemsUnchecked), zzvrt.Not(f.nullObject)))
+	_, accepted, ok := zzRunT("C10.names", h, g.getRootTypeName(sch, "root.json"), "json", d)
+	if !ok {
+		return
+	}
+	zzvrt.Cover("nested-vs-definition:" + second)
+	zzvrt.Check("C10.names.each-reference-means-its-own-definition", zzvrt.Iff(accepted, f.all()))
+	zzvrt.Check("C04.names.required-of-the-referenced-definition", zzvrt.Implies(f.others("req"), zzvrt.Iff(accepted, f.req)))
+	zzvrt.Check("C03.names.wrong-type-rejected-through-colliding-definition-names", zzvrt.Implies(f.others("typ"), zzvrt.Iff(accepted, f.typ)))
 }
